@@ -361,6 +361,9 @@ func (fr *frame) runBlocks() {
 				continue
 			}
 			p.steps++
+			if p.stepLimit > 0 && p.steps > p.stepLimit {
+				panic(nonTermination{})
+			}
 			if p.steps > p.cfg.MaxSteps {
 				p.abort(abortBudget, fmt.Sprintf("step budget (%d SSA instructions) exhausted: unwinding assertion failed", p.cfg.MaxSteps))
 			}
